@@ -217,6 +217,39 @@ def compound_in_range(lines, l0, l1, names=None):
     return cnt
 
 
+def ifswap_in_range(lines, l0, l1):
+    """if (c) { A } else { B }  ->  if (!(c)) { B } else { A }   for blocks whose three bracket lines sit at the same indentation"""
+    cnt = 0
+    i = l0 - 1
+    hi = min(l1, len(lines))
+    while i < hi:
+        m = re.match(r"^(\s*)if \((.*)\) \{\s*$", lines[i])
+        if not m or "//" in lines[i] or '"' in lines[i] or m.group(2).count("(") != m.group(2).count(")") or re.match(r"^\s*if \(.*;.*\)", lines[i]):
+            i += 1
+            continue
+        ind = m.group(1)
+        j = i + 1
+        while j < hi and not (lines[j].startswith(ind + "}") and not lines[j].startswith(ind + " ")):
+            j += 1
+        if j >= hi or not re.match(r"^%s\} else \{\s*$" % re.escape(ind), lines[j]):
+            i += 1
+            continue
+        k = j + 1
+        while k < hi and not (lines[k].startswith(ind + "}") and not lines[k].startswith(ind + " ")):
+            k += 1
+        if k >= hi or lines[k].rstrip() != ind + "}":
+            i += 1
+            continue
+        a_blk, b_blk = lines[i + 1:j], lines[j + 1:k]
+        if any(re.match(r"^\s*(case |default:)", x) for x in a_blk + b_blk):
+            i = k + 1
+            continue
+        lines[i:k + 1] = [ind + "if (!(" + m.group(2) + ")) {"] + b_blk + [ind + "} else {"] + a_blk + [ind + "}"]
+        cnt += 1
+        i = k + 1
+    return cnt
+
+
 def make_copy():
     d = tempfile.mkdtemp(prefix="vneutral_", dir="/tmp")
     # committed sources (HEAD), so that a seed patch temporarily applied to /repo's working tree cannot leak into the copy
@@ -255,6 +288,8 @@ def apply(root, fns, mode):
                     if ".push_back(" in s_ and "push_back({" not in s_ and "push_back( {" not in s_ and "//" not in s_ and s_.rstrip().endswith(";") and s_.count("(") == s_.count(")"):
                         lines[i_] = s_.replace(".push_back(", ".emplace_back(")
                         total += 1
+            if mode == "ifswap":
+                total += ifswap_in_range(lines, f["l"], f["l_end"])
             if mode == "compound":
                 total += compound_in_range(lines, f["l"], f["l_end"], arith_names(f))
             if mode == "flip":
